@@ -315,6 +315,10 @@ func (e *Exec) callByContract(st *State, fr *Frame, callee *ssa.Function, ct *Co
 	pre := st.Clone()
 	// frame: havoc what the callee may assign
 	e.applyAssigns(st, ct, env)
+	// the callee may allocate: results may refer to objects above the old watermark
+	w0 := st.water
+	st.water = FreshWater("Wc")
+	st.pc = append(st.pc, App(">=", SBool, st.water, w0))
 	var res []*Value
 	rs := callee.Signature.Results()
 	for i := 0; i < rs.Len(); i++ {
